@@ -3,5 +3,6 @@ CONSTANTS
   N = 3
   MaxEvents = 3
   M_SelectorIndependentOfOtherActions = TRUE
+  M_OnlyTimeoutExempt = TRUE
 INVARIANTS TypeOK SelectorDecides
 CHECK_DEADLOCK FALSE
